@@ -1,0 +1,52 @@
+//go:build !verif
+
+package scheduler
+
+import (
+	"context"
+	"time"
+)
+
+// Verification seams (see verif_on.go). With the verif build tag off these
+// are empty, inlinable functions: the shipped behaviour is unchanged.
+
+const (
+	vsWStart = iota + 1
+	vsWDiePost
+	vsWRespawned
+	vsWGot
+	vsWRun
+	vsWPost
+	vsWNext
+	vsWExit
+	vsSpStart
+	vsSpNext
+	vsNewSpawned
+	vsNewLoop
+	vsEnqSend
+	vsLStart
+	vsLExit
+	vsLPreKill
+	vsLDrain
+	vsWaitClose
+
+	vsArmDispatch = 1
+	vsArmEnqueue  = 2
+	vsArmDone     = 4
+	vsArmTick     = 8
+)
+
+type (
+	verifLoop struct{}
+	verifSel  struct{}
+)
+
+func verifYieldW(int, <-chan *ScheduledJob, *ScheduledJob)     {}
+func verifYieldS(int, chan<- *ScheduledJob, *ScheduledJob)     {}
+func verifLoopStart(*Scheduler, time.Duration, bool) verifLoop { return verifLoop{} }
+func (verifLoop) arm(int, *ScheduledJob)                       {}
+func (verifLoop) sel(*Scheduler, *chan<- *ScheduledJob, *chan *ScheduledJob, *<-chan time.Time, int, int, int, int) verifSel {
+	return verifSel{}
+}
+func (verifSel) restore(*Scheduler, *chan *ScheduledJob, *<-chan time.Time) {}
+func verifWaitSelect(_ *Scheduler, ctx context.Context) context.Context     { return ctx }
